@@ -412,6 +412,23 @@ def c_eval_simple_dist(rng):
     return c_eval_simple_n(rng, prev=True)
 
 
+def c_eval_rounds_list(rng, rounds=2):
+    """votes in every documented form: one dict for all rounds, or a LIST (or tuple) of per-round dicts that is shorter than,
+    as long as, or longer than the number of rounds"""
+    cs = g_cands(rng, 2, 4)
+    form = rng.choice(['dict', 'shorter', 'equal', 'longer', 'tuple'])
+    k = kw_prev_max(rng, {})
+    if form == 'dict':
+        v = g_simple(rng, cs, frac=False)
+    else:
+        n = {'shorter': rng.randint(1, rounds - 1), 'equal': rounds, 'longer': rounds + 1, 'tuple': rng.randint(1, rounds)}[form]
+        sets = [g_simple(rng, cs, frac=False) for _ in range(n)]
+        v = T(sets) if form == 'tuple' else L(sets)
+    c = call('evaluate', v, rng.randint(2, 8), **k)
+    c['_form'] = form
+    return c
+
+
 def c_eval_simple_seatless(rng):
     return call('evaluate', g_simple(rng))
 
@@ -545,10 +562,16 @@ def _targets():
     # --- core wrappers
     add('Plurality', lambda: vcore.Plurality(), c_eval_simple_sel)
     add('MultistageDistributor', lambda: vcore.MultistageDistributor([HA(), vprop.LargestRemainder('hare')]),
-        c_eval_simple_dist)
+        c_eval_rounds_list, rounds=2)
+    add('MultistageDistributor:quota_ha', lambda: vcore.MultistageDistributor([vprop.QuotaDistributor('hare'), HA()]),
+        c_eval_rounds_list, rounds=2)
+    add('MultistageDistributor:three', lambda: vcore.MultistageDistributor([HA(), HA('sainte_lague'), vprop.LargestRemainder('droop')]),
+        (lambda rng: c_eval_rounds_list(rng, 3)), rounds=3)
     add('MultistageDistributor:depth2',
         lambda: vcore.MultistageDistributor([vcore.ByConstituency(HA()), vcore.ByConstituency(HA('sainte_lague'))], depth=2),
         c_eval_const_dist)
+    add('UnusedVotesDistributor:votes_forms',
+        lambda: vcore.UnusedVotesDistributor([vprop.QuotaDistributor('hare'), HA()]), c_eval_rounds_list, rounds=2)
     add('UnusedVotesDistributor',
         lambda: vcore.UnusedVotesDistributor([vprop.QuotaDistributor('hare'), HA()]),
         lambda rng: call('evaluate', g_simple(rng, frac=False), g_seats(rng, 4),
@@ -1910,6 +1933,7 @@ REQUIRED_COUNTERS = ['every_class', 'singleton', 'pav_cache_grows', 'pav_small_a
                      'draw:RandomUnrankedBallotSelector.evaluate', 'draw_via:initial_allocation', 'draw_via:direct_transfer',
                      'draw_via:next_count', 'draw_via:float_branch', 'foreign_first', 'model:dispatch', 'raise_first', 'call_after_exception',
                      'call_after_refusal', 'refusal_first', 'prev_gains_then_none', 'larger_then_smaller', 'smaller_after_larger',
+                     'votes_form:dict', 'votes_form:shorter', 'votes_form:equal', 'votes_form:longer', 'votes_form:tuple',
                      'nested_depth3', 'nested_depth4', 'nested_depth3_prev_gains', 'nested_depth4_prev_gains', 'same_argument_objects',
                      'eliminator_mixed_candidates', 'reject:candidate_error', 'reject:candidate_error_only',
                      'reject:candidate_error_before_vote_error', 'reject:vote_error_before_candidate_error', 'reject:vote_error',
@@ -1940,6 +1964,8 @@ def _tag_calls(TG, targets, calls, tags):
             tags.append('score_params_underscored')
         if t.get('eliminator'):
             tags.append('eliminator_mixed_candidates')
+        if t.get('rounds') and c.get('_form'):
+            tags.append('votes_form:' + c['_form'])
         if t.get('nested_depth'):
             tags.append(f"nested_depth{t['nested_depth']}")
             if 'prev_gains' in k:
@@ -2062,6 +2088,11 @@ def generate(rng, tier):
         for _ in range(6 if tier == 'quick' else 50):
             calls = [dict(TG[name]['gen'](rng), t=0) for _ in range(rng.randint(2, 4))]
             yield _mk([name], calls, _tag_calls(TG, [name], calls, ['score_grid']))
+    # (5d5) per-round vote lists in every form, several calls on one distributor
+    for name in [n for n in names if TG[n].get('rounds')]:
+        for _ in range(8 if tier == 'quick' else 60):
+            calls = [dict(TG[name]['gen'](rng), t=0) for _ in range(rng.randint(2, 5))]
+            yield _mk([name], calls, _tag_calls(TG, [name], calls, ['rounds_directed']))
     # (5d4) nesting depth 3 / 4, the caller passing the SAME votes / prev_gains / max_seats objects twice
     for name in [n for n in names if TG[n].get('nested_depth')]:
         for _ in range(4 if tier == 'quick' else 30):
